@@ -184,7 +184,8 @@ let () =
                         let start = ref 0 and prev = ref "" in
                         let flush_run last =
                           if !prev <> "" then Buffer.add_string buf (Printf.sprintf " %d-%d:%s" !start last !prev) in
-                        for n = int_of_string from to size do
+                        (* at most 401 truncation points *)
+                        for n = max (int_of_string from) (size - 400) to size do
                           let r = match crash fx s (n_of_int n) with
                             | None -> "err"
                             | Some s' -> Printf.sprintf "ok:%08x" (crc_string (obs s' t0 !ids)) in
